@@ -438,7 +438,7 @@ def build_world(workdir, seed, n_genes=24, taxonomy='d2_bal', n_cells_per_leaf=6
                 encoding='dense', n_query=18, query_normalization='raw',
                 permute_query_genes=True, n_extra_query_genes=3, n_per_utility=3,
                 ref_encoding='dense', zero_cell=False, n_processors=2, name=None,
-                query_kinds=('pure', 'mix', 'mix', 'noise')):
+                query_kinds=('pure', 'mix', 'mix', 'noise'), n_unlabelled=0):
     """Build a tiny reference + query world by running the package's own stages.
 
     taxonomy: a name from SHAPES or a spec dict ({'hierarchy': [...], level: {parent: [children]}}).
@@ -472,14 +472,24 @@ def build_world(workdir, seed, n_genes=24, taxonomy='d2_bal', n_cells_per_leaf=6
     for k in range(n_cells_per_leaf):
         for lf in leaves:
             row_leaf.append(lf)
+    # reference cells that the taxonomy assigns to no leaf (they must contribute nothing)
+    row_leaf += [None] * int(n_unlabelled)
     perm = rng.permutation(len(row_leaf))
     row_leaf = [row_leaf[i] for i in perm]
+    if n_unlabelled and row_leaf[0] is not None:
+        # make sure an unlabelled cell sits ahead of labelled ones inside the first chunk
+        j = row_leaf.index(None)
+        row_leaf[0], row_leaf[j] = row_leaf[j], row_leaf[0]
     ref_X = np.zeros((len(row_leaf), n_genes))
     rows_of_leaf = {lf: [] for lf in leaves}
     for r, lf in enumerate(row_leaf):
-        rows_of_leaf[lf].append(r)
+        if lf is not None:
+            rows_of_leaf[lf].append(r)
     for lf in leaves:
         ref_X[rows_of_leaf[lf], :] = _sample_cells(means[lf], len(rows_of_leaf[lf]), rng)
+    for r, lf in enumerate(row_leaf):
+        if lf is None:
+            ref_X[r, :] = rng.integers(50, 400, size=n_genes)
     tree = tree_dict_from_spec(spec, rows_of_leaf)
     c2p = child_to_parent(tree)
     obs_cols = {}
@@ -487,6 +497,9 @@ def build_world(workdir, seed, n_genes=24, taxonomy='d2_bal', n_cells_per_leaf=6
         col = []
         for lf in row_leaf:
             node = lf
+            if lf is None:
+                col.append('unlabelled')
+                continue
             for cl in reversed(h[h.index(lv) + 1:]):
                 node = c2p[cl][node]
             col.append(node)
